@@ -236,7 +236,54 @@ func c17Program(run *common.Run, prog int) {
 		name := drive.TableName(drive.Parent, id)
 		var desc string
 		var do func(sv *drive.Srv) string
-		switch k := r.Intn(40); {
+		switch k := r.Intn(43); {
+		case k >= 40 && s >= 2:
+			// hammer: a run of consecutive writes to ONE row of one table through all four write RPCs, the stored row
+			// growing across the size thresholds of the engines' buffers and caches (values of 8 B - 40 KB), or a
+			// long run of increments (hundreds of versions); every sub-response and the row read back are compared
+			key := common.Pick(r, gen.Keys)
+			fam := common.Pick(r, famPool)
+			type sub struct {
+				kind int
+				size int
+				ts   int64
+			}
+			var subs []sub
+			if r.Chance(1, 4) {
+				for i, n := 0, r.Range(260, 420); i < n; i++ {
+					subs = append(subs, sub{kind: 3})
+				}
+			} else {
+				for i, n := 0, r.Range(3, 8); i < n; i++ {
+					subs = append(subs, sub{kind: r.Intn(5), size: common.Pick(r, []int{8, 1000, 3000, 4200, 9000, 40000}), ts: common.Pick(r, []int64{-1, 1000, 2000, int64(i) * 1000})})
+				}
+			}
+			desc = fmt.Sprintf("Hammer(%s,%q,%s,%v)", id, key, fam, subs[:min(len(subs), 8)])
+			run.Count("hammer_steps", 1)
+			do = func(sv *drive.Srv) string {
+				var out []string
+				for i, sb := range subs {
+					val := strings.Repeat(string(rune('a'+i%26)), sb.size)
+					switch sb.kind {
+					case 0:
+						out = append(out, drive.MutateRow(sv.Data, name, key, []model.Mut{{Kind: model.SetCell, Fam: fam, Qual: "h", TS: sb.ts, Val: val}}).String())
+					case 1:
+						st, per, mal := drive.MutateRows(sv.Data, name, []drive.Entry{{Key: key, Muts: []model.Mut{{Kind: model.SetCell, Fam: fam, Qual: "h2", TS: sb.ts, Val: val}}}})
+						out = append(out, fmt.Sprintf("%s %v %s", st, per, mal))
+					case 2:
+						st, m := drive.CheckAndMutate(sv.Data, name, key, nil, []model.Mut{{Kind: model.SetCell, Fam: fam, Qual: "h", TS: sb.ts, Val: val}}, []model.Mut{{Kind: model.SetCell, Fam: fam, Qual: "h3", TS: sb.ts, Val: val}})
+						out = append(out, fmt.Sprintf("%s matched=%v", st, m))
+					case 3:
+						st, row := drive.ReadModifyWrite(sv.Data, name, key, []drive.Rule{{Fam: fam, Qual: "ctr", Inc: 1}})
+						out = append(out, fmt.Sprintf("%s %s", st, row))
+					default:
+						st, row := drive.ReadModifyWrite(sv.Data, name, key, []drive.Rule{{Fam: fam, Qual: "app", Append: true, Val: val}})
+						out = append(out, fmt.Sprintf("%s %x", st, common.Hash64(fmt.Sprint(row))))
+					}
+				}
+				res := drive.ReadRows(sv.Data, &btpb.ReadRowsRequest{TableName: name, Rows: drive.RowSetToProto(model.RowSet{Keys: []string{key}})})
+				return strings.Join(out, " | ") + " || " + canonRows(res)
+			}
 		case k < 2 || (s < 2):
 			fams := map[string]*model.GcRule{}
 			for _, f := range famPool {
